@@ -930,9 +930,8 @@ public:
                      sizeof(uint64_t) * numEdges);
       readPosition =
           ((4 + numNodes) * sizeof(uint64_t) + numEdges * sizeof(uint64_t));
-      if (numEdges % 2) {
-        readPosition += sizeof(uint64_t);
-      }
+      // version 2 has no pad word after the (already 8-byte aligned)
+      // destinations
     } else {
       GALOIS_DIE("unknown file version: ", version);
     }
